@@ -299,6 +299,7 @@ def run(ctx):
     ctx.floor("leb_orders", 3)
     ctx.floor("lookup_helpers", 11)
     ctx.floor("passthrough", 5)
+    ctx.floor("absent_section_scenarios", 2)
     ctx.assume("cm.packer[fmt] is struct.Struct('<'+fmt) (DalvikPacker.__getitem__; endian tag checked under C09)")
     ctx.assume("readuleb128/readuleb128p1/readsleb128 consume exactly one LEB128 value from the stream (decided under C03)")
     ctx.note("not decided: annotation, debug-info and encoded-value items; try/handler tables (C08)")
@@ -558,6 +559,9 @@ class _CMSem(DexInterp):
                 return Sym("sideitem", recv.member, args[0])
             return Sym("sidecall", recv.member, name, *args)
         if isinstance(recv, _TableV):
+            if name == "get" and args and isinstance(args[0], EnumVal) and args[0].enum == self.cmi.enum_cls.name:
+                self.sections.add(args[0].member)
+                return Sym("section", args[0].member)
             self.sections.add("ANY")
             return Sym("section", "ANY")
         return super()._h_method(it, recv, name, args, kwargs, e, func)
@@ -1183,7 +1187,7 @@ def judge_passthrough(ctx, f, what, values, allowed, sentinels, describe):
     return n_ok
 
 
-def cm_returns(md, cm_cls, name, overrides=None):
+def cm_returns(md, cm_cls, name, overrides=None, symbolic_attrs=()):
     f = cm_cls.lookup(name)
     if f is None:
         raise AnalysisError("anchor vanished: ClassManager.%s" % name)
@@ -1192,6 +1196,8 @@ def cm_returns(md, cm_cls, name, overrides=None):
     def run(asg):
         it = _CMInterp(md.repo, md.folder, asg=dict(asg), inline_module=None, target=name, cm_cls=cm_cls, overrides=overrides)
         slf = Obj(cm_cls, "self")
+        for a_ in symbolic_attrs:   # tables that must stay symbolic even when they are (class-level) literals
+            slf.attrs[a_] = Sym("attr", "self", a_)
         return it.call_function(f, [Sym("param", p) for p in params], recv=slf)
 
     vals = []
@@ -1214,6 +1220,50 @@ def cm_returns(md, cm_cls, name, overrides=None):
     return f, params, vals + handler_consts
 
 
+def check_absent_sections(ctx, md, cmi):
+    """optional sections: an offset field of 0 means "none" in the format, and the section it would point into may be
+    absent from the map altogether (a DEX whose methods are all abstract has no code_item section).  Every resolver that an
+    item applies *unconditionally* to such an offset (role R(<off field>) that is not optional in the getter table) is run
+    with argument 0 on a ClassManager whose section table and side tables are empty: it must answer (None / []), not raise."""
+    from ..dexsim import SimInterp
+    cm_cls = cmi.cls
+    accs = {}
+    for cname, getters in GETTERS.items():
+        item = ITEM_OF[cname]
+        for g, expr in getters.items():
+            if expr[0] != "R":
+                continue
+            name, typ, ref = spec.field(item, expr[1])
+            if ref and ref.startswith("off:") and ref in RESOLVER:
+                accs.setdefault(RESOLVER[ref][0], []).append("%s.%s" % (cname, g))
+    ctx.require(accs, "no unconditional offset resolver found in the role table")
+    for acc, users in sorted(accs.items()):
+        f = cm_cls.lookup(acc)
+        ctx.require(f is not None, "anchor vanished: ClassManager.%s" % acc)
+
+        def run(asg):
+            it = SimInterp(md.repo, md.folder, asg=dict(asg), inline_module=None)
+            slf = Obj(cm_cls, "self")
+            slf.attrs[cmi.mangled(cmi.table_attr)] = {}
+            for a_ in cmi.side_attrs:
+                slf.attrs[cmi.mangled(a_)] = {}
+            return it.call_function(f, [0], recv=slf)
+
+        results = explore(run, max_paths=64)
+        for asg, r in list.__iter__(results):
+            if hasattr(ctx, "path"):
+                ctx.path(None)
+            raised = isinstance(r, Raised)
+            if not raised and not (r is None or r == [] or r == () or r == ""):
+                raise AnalysisError("ClassManager.%s(0) without its section evaluates to %s (shape outside the fragment)" % (acc, show(r)[:60]))
+            ctx.check("resolver/absent-section", "ClassManager.%s(0), section absent" % acc, not raised, f,
+                      "ClassManager.%s(0) when the section is absent from the map" % acc,
+                      "ClassManager.%s(0) raises %s when the map has no such section; offset 0 means \"none\" and a well-formed file without "
+                      "any such item has no section for it (applied unconditionally by %s)" % (acc, r if raised else "", ", ".join(users)),
+                      detail="%s(0) with an empty section table -> %s" % (acc, "raises" if raised else show(r)))
+        ctx.count("absent_section_scenarios")
+
+
 def check_passthrough(ctx, md):
     cmi = CMInfo(md.repo, md.folder)
     cm_cls = cmi.cls
@@ -1233,6 +1283,7 @@ def check_passthrough(ctx, md):
               any(contains(v, Sym("cm.get_raw_string", idx)) for v in vals), f, "get_string raw fallback",
               "ClassManager.get_string never consults get_raw_string(idx)")
     ctx.count("passthrough")
+    check_absent_sections(ctx, md, cmi)
     # get_raw_string: StringDataItem.get() of the item at the data offset of string id idx
     f, params, vals = cm_returns(md, cm_cls, "get_raw_string")
     idx = Sym("param", params[0])
